@@ -40,7 +40,7 @@ func init() {
 	}})
 }
 
-func (p *c11) NumCases(tier string, seed int64) int { return tierN(tier, 900, 20000) }
+func (p *c11) NumCases(tier string, seed int64) int { return tierN(tier, 900, 6000) } // (the worker runs under the race detector)
 
 type c11Injector struct {
 	name  string
